@@ -51,6 +51,51 @@ var alphabet = []fragment{
 	{"long-101", longLine(101)},
 }
 
+// ---------------------------------------------------------------- backslash family
+
+// escLines is the family of one-line texts with two quoted sections on the same
+// line, the first holding a backslash (an ordinary character in standard SQL, an
+// escape character for code that thinks in C), the second holding blanks:
+//
+//	SELECT <q1><content1><q1><sep><q2><content2><q2><tail>
+//
+// q1, q2 in {', ", `}; content1 = backslash last / first / in the middle / doubled
+// at the end / absent; sep and tail with and without repeated spaces outside the
+// quoted sections; content2 with and without repeated spaces inside.  Every member
+// is enumerated.  A rule or fixer whose idea of where a quoted section ends
+// differs from the others' (and from the reference lexer's) has inside and outside
+// swapped for the rest of such a line.
+var escQuotes = []fragment{{"sq", "'"}, {"dq", "\""}, {"bt", "`"}}
+var escContent1 = []fragment{{"last", `C:\`}, {"first", `\C:`}, {"mid", `C:\d`}, {"dbl", `C:\\`}, {"none", `C:`}}
+var escSeps = []fragment{{"s1", ", "}, {"s2", " ,  "}}
+var escContent2 = []fragment{{"c1", "x y"}, {"c2", "x  y"}}
+var escTails = []fragment{{"t1", " FROM t"}, {"t2", "  FROM t"}}
+
+// escFirst is the index in alphabet of the first member of the family; the members
+// are appended to alphabet (init) so that keys, assemble and emit treat them like
+// any other line, but the n-line products only range over the first escFirst fragments.
+var escFirst int
+
+func init() {
+	escFirst = len(alphabet)
+	for _, q1 := range escQuotes {
+		for _, c1 := range escContent1 {
+			for _, sp := range escSeps {
+				for _, q2 := range escQuotes {
+					for _, c2 := range escContent2 {
+						for _, tl := range escTails {
+							alphabet = append(alphabet, fragment{
+								"esc:" + q1.name + "-" + c1.name + "." + sp.name + "." + q2.name + "-" + c2.name + "." + tl.name,
+								"SELECT " + q1.text + c1.text + q1.text + sp.text + q2.text + c2.text + q2.text + tl.text,
+							})
+						}
+					}
+				}
+			}
+		}
+	}
+}
+
 // keywords used by the alphabet (all of them are keywords for the library's
 // tokenizer and for the keyword-case rule's own list).
 var modelKeywords = map[string]bool{"SELECT": true, "FROM": true, "WHERE": true, "AND": true, "OR": true,
